@@ -460,10 +460,14 @@ func invalidCases(t int) []invalidCase {
 			{"request-garbage", mk(badProto, wShard), true},
 			{"request-empty", mk(nil, wShard), true},
 			{"no-read-source", mk(rf(func(r *datatypes.ReadFilterRequest) { r.ReadSource = nil }), wShard), true},
-			{"read-source-wrong-type", mk(rf(func(r *datatypes.ReadFilterRequest) { r.ReadSource = &types.Any{TypeUrl: "type.googleapis.com/nosuch.Type", Value: []byte{1, 2, 3}} }), wShard), true},
+			{"read-source-wrong-type", mk(rf(func(r *datatypes.ReadFilterRequest) {
+				r.ReadSource = &types.Any{TypeUrl: "type.googleapis.com/nosuch.Type", Value: []byte{1, 2, 3}}
+			}), wShard), true},
 			{"read-source-bad-value", mk(rf(func(r *datatypes.ReadFilterRequest) { r.ReadSource.Value = badProto }), wShard), true},
 			{"db-unknown", mk(rf(func(r *datatypes.ReadFilterRequest) { r.ReadSource = readSource("nosuch", "") }), wShard), true},
-			{"range-inverted", mk(rf(func(r *datatypes.ReadFilterRequest) { r.Range = datatypes.TimestampRange{Start: math.MaxInt64, End: math.MinInt64} }), wShard), false},
+			{"range-inverted", mk(rf(func(r *datatypes.ReadFilterRequest) {
+				r.Range = datatypes.TimestampRange{Start: math.MaxInt64, End: math.MinInt64}
+			}), wShard), false},
 			{"shard-zero", mk(rf(func(r *datatypes.ReadFilterRequest) {}), 0), false},
 			{"shard-unknown", mk(rf(func(r *datatypes.ReadFilterRequest) {}), 4242), false},
 			{"no-shards", mk(rf(func(r *datatypes.ReadFilterRequest) {})), false},
@@ -804,8 +808,8 @@ func generateStreams(g *rand.Rand, thorough bool, emit func(*stream)) {
 	for _, t := range requestTypes {
 		for _, p := range payloadsFor(t, g, reps) {
 			for _, ls := range lenSpecs {
-				if ls.only == "thorough" && (!thorough || p.class != "valid") {
-					continue
+				if ls.only == "thorough" && (!thorough || p.class != "valid" || (t != tWriteShard && t != tTagKeys && t != tCreateIterator)) {
+					continue // a permitted 1 GiB allocation: the frame reader is shared, three message types are enough
 				}
 				// Invalid-contents payloads are about the contents: honest length and one byte short of it.
 				if len(p.class) > 8 && p.class[:8] == "invalid:" && ls.class != "exact" && ls.class != "len+1" {
@@ -813,6 +817,9 @@ func generateStreams(g *rand.Rand, thorough bool, emit func(*stream)) {
 				}
 				// A negative length never gets as far as the payload: two payload classes are enough.
 				if (ls.class == "minus-1" || ls.class == "min-int64") && p.class != "empty" && p.class != "valid" {
+					continue
+				}
+				if ls.class == "min-int64" && p.class == "empty" && !thorough {
 					continue
 				}
 				if ls.class == "32MiB" && p.class != "valid" && p.class != "empty" {
@@ -975,7 +982,7 @@ func generateStreams(g *rand.Rand, thorough bool, emit func(*stream)) {
 	// (F) seeded mutations of valid single requests, honest length: gets past framing into the decoders and handlers.
 	nMut := 1500
 	if thorough {
-		nMut = 60000
+		nMut = 50000
 	}
 	for i := 0; i < nMut; i++ {
 		t := requestTypes[g.Intn(len(requestTypes))]
@@ -999,7 +1006,7 @@ func generateStreams(g *rand.Rand, thorough bool, emit func(*stream)) {
 	}
 
 	// (G) raw random streams after the header.
-	nRand := 300
+	nRand := 200
 	if thorough {
 		nRand = 8000
 	}
@@ -1009,11 +1016,30 @@ func generateStreams(g *rand.Rand, thorough bool, emit func(*stream)) {
 		if g.Intn(2) == 0 { // start with a real request type so the length reader is reached
 			b[0] = byte(requestTypes[g.Intn(len(requestTypes))])
 		}
-		if len(b) > 9 && g.Intn(4) > 0 { // keep the declared length small and positive
+		if len(b) > 9 && g.Intn(8) > 0 { // mostly keep the declared length small and positive: the bytes behind it get looked at
 			copy(b[1:8], make([]byte, 7))
+		}
+		for i := 10; i < len(b); i++ { // ... and do not start too many further frames with a sign bit in their length
+			if _, isReq := reqNames[int(b[i-1])]; isReq && g.Intn(4) > 0 {
+				b[i] &= 0x7f
+			}
 		}
 		s.Bytes = append(s.Bytes, b...)
 		s.Frames = []frame{{Type: int(b[0]), TypeName: typeName(int(b[0])), PayClass: "random-stream", LenClass: "random", PayLen: len(b)}}
+		out(s)
+	}
+
+	// (H') a node built with unsigned-integer support (build tag uint64 == models.EnableUintSupport) that holds an
+	// unsigned field: a remote iterator over it.
+	{
+		opt := validOpt()
+		opt.Expr = &influxql.VarRef{Val: "u", Type: influxql.Unsigned}
+		opt.Aux = nil
+		pl := mustBin(&coordinator.CreateIteratorRequest{ShardIDs: []uint64{wShard}, Measurement: cpuMeasurement(), Opt: opt})
+		s := newStream("uint", hdr)
+		s.Uint = true
+		s.add(tCreateIterator, int64(len(pl)), "exact", "valid-unsigned-field", pl)
+		s.strictType = tCreateIterator
 		out(s)
 	}
 
